@@ -53,3 +53,116 @@ k_read_residuals_valid!(k_res_valid_i32_n4_o0_m0_p1_RR, i32, 4, 0, 0, 1, [Rice, 
 k_read_residuals_valid!(k_res_valid_i32_n4_o0_m1_p2_RERZ, i32, 4, 0, 1, 2, [Rice, Escape, Rice, Zero], 6);
 k_read_residuals_valid!(k_res_valid_i32_n3_o1_m0_p1_ER, i32, 3, 1, 0, 1, [Escape, Rice], 6);
 k_read_residuals_valid!(k_res_valid_i32_n3_o2_m1_p0_R, i32, 3, 2, 1, 0, [Rice], 6);
+k_read_residuals_valid!(k_res_valid_i64_n3_o1_m1_p1_RE, i64, 3, 1, 1, 1, [Rice, Escape], 6);
+k_read_residuals_valid!(k_res_valid_i32_n2_o0_m0_p1_ZR, i32, 2, 0, 0, 1, [Zero, Rice], 6);
+k_read_residuals_valid!(k_res_valid_i32_n1_o0_m1_p0_E, i32, 1, 0, 1, 0, [Escape], 6);
+
+// ------------------------------------------------------------------ read_residuals (all inputs)
+//
+// contract: for every field sequence and every read fault
+//   never panics;  a read fault is never swallowed (Err);
+//   coding method 2/3 or a partition order that RFC 9639 §9.2.7 forbids for this block => Err
+macro_rules! k_read_residuals_total {
+    ($name:ident, $t:ty, $n:expr, $unw:expr) => {
+        #[kani::proof]
+        #[kani::unwind($unw)]
+        pub(crate) fn $name() {
+            let mut tape: Tape<4> = Tape::faulty();
+            let method: u64 = kani::any();
+            let po: u64 = kani::any();
+            kani::assume(method < 4 && po < 16);
+            tape.preload(K_U, 2, method);
+            tape.preload(K_U, 4, po);
+            tape.record = false;
+            let order: usize = kani::any();
+            kani::assume(order <= 3);
+            let mut out: [$t; $n] = kani::any();
+            let res = read_residuals::<_, $t>(&mut tape, order, &mut out);
+            if tape.failed {
+                vk_assert!(res.is_err(), "read fault / EOF swallowed by read_residuals");
+            }
+            if method > 1 {
+                vk_assert!(res.is_err(), "reserved residual coding method accepted");
+            }
+            if !spec::part_ok(($n + order) as u32, order as u32, po as u32) {
+                vk_assert!(res.is_err(), "partition order forbidden by RFC 9639 9.2.7 accepted");
+            }
+            kani::cover!(res.is_ok(), "some input accepted");
+            kani::cover!(res.is_err() && !tape.failed, "some input rejected without a read fault");
+        }
+    };
+}
+k_read_residuals_total!(k_res_total_i32_n1, i32, 1, 3);
+k_read_residuals_total!(k_res_total_i32_n2, i32, 2, 4);
+k_read_residuals_total!(k_res_total_i32_n3, i32, 3, 5);
+k_read_residuals_total!(k_res_total_i64_n2, i64, 2, 4);
+
+// ------------------------------------------------------------------ predict
+//
+// contract (RFC 9639 §9.2.5/§9.2.6): channel = warm_up ++ residuals where residuals[i] is
+// x[order+i] - ((Σ x[order+i-1-j]·c[j]) >> shift)   ==>   after predict(), channel == x.
+// requires: x fits `bps` bits, residuals are valid 32-bit residuals, shift <= 31.
+// Coefficients are *concrete* per instance: with symbolic coefficients the obligation asks a SAT
+// solver to match two 64-bit multiplier circuits and does not finish (measured: > 15 min for
+// n = 3, order = 1, with CaDiCaL, kissat, z3 and cvc5).  The fixed-predictor instances cover the
+// complete coefficient space of FIXED subframes; for LPC the coefficient-generic statement is the
+// Verus lemma L-LPC and these instances are its bounded link to the code.
+macro_rules! k_predict_valid {
+    ($name:ident, $t:ty, $bps:expr, $n:expr, [$($c:expr),*], $unw:expr) => {
+        #[kani::proof]
+        #[kani::unwind($unw)]
+        pub(crate) fn $name() {
+            let c: [i64; [$($c),*].len()] = [$($c),*];
+            let order = c.len();
+            let mut x = [0i64; $n];
+            let mut i = 0;
+            while i < $n { x[i] = any_i64_within($bps); i += 1; }
+            let shift: u32 = kani::any();
+            kani::assume(shift <= 31);
+            let mut ch: [$t; $n] = [0; $n];
+            let mut i = 0;
+            while i < $n {
+                let v = if i < order { x[i] } else { specenc::spec_residual(&x, i, order, &c, shift) };
+                if i >= order {
+                    kani::assume(v >= i32::MIN as i64 + 1 && v <= i32::MAX as i64); // valid residual
+                }
+                ch[i] = v as $t;
+                i += 1;
+            }
+            predict::<$t>(&c, shift, &mut ch);
+            let mut i = 0;
+            while i < $n {
+                vk_assert!(i64::from(ch[i]) == x[i], "predict does not restore the samples the residuals were computed from");
+                i += 1;
+            }
+        }
+    };
+}
+k_predict_valid!(k_predict_valid_i32_fixed1, i32, 32, 4, [1], 6);
+k_predict_valid!(k_predict_valid_i32_fixed2, i32, 32, 4, [2, -1], 6);
+k_predict_valid!(k_predict_valid_i32_fixed3, i32, 32, 5, [3, -3, 1], 7);
+k_predict_valid!(k_predict_valid_i32_fixed4, i32, 32, 6, [4, -6, 4, -1], 8);
+k_predict_valid!(k_predict_valid_i64_fixed2, i64, 33, 4, [2, -1], 6);
+k_predict_valid!(k_predict_valid_i32_lpc_a, i32, 32, 4, [16383, -16384], 6);
+k_predict_valid!(k_predict_valid_i32_lpc_b, i32, 24, 5, [1042, -399, -75], 7);
+k_predict_valid!(k_predict_valid_i64_lpc_a, i64, 33, 4, [-16384, 16383], 6);
+
+// contract: predict never panics, whatever the (malformed) stream supplied — all values
+macro_rules! k_predict_total {
+    ($name:ident, $t:ty, $n:expr, $order:expr, $unw:expr) => {
+        #[kani::proof]
+        #[kani::unwind($unw)]
+        pub(crate) fn $name() {
+            let mut c = [0i64; $order];
+            let mut j = 0;
+            while j < $order { c[j] = any_i64_within(15); j += 1; }
+            let shift: u32 = kani::any();
+            kani::assume(shift <= 31);
+            let mut ch: [$t; $n] = kani::any();
+            predict::<$t>(&c, shift, &mut ch);
+        }
+    };
+}
+k_predict_total!(k_predict_total_i32_n4_o2, i32, 4, 2, 6);
+k_predict_total!(k_predict_total_i64_n4_o2, i64, 4, 2, 6);
+k_predict_total!(k_predict_total_i32_n3_o0, i32, 3, 0, 5);
